@@ -1641,6 +1641,29 @@ class _Small(ast.NodeTransformer):
                 for t, v in zip(st.targets[0].elts, st.value.elts):
                     out.append(ast.copy_location(ast.Assign(targets=[t], value=v, lineno=st.lineno), st))
                 continue
+            if isinstance(st, ast.Assign) and len(st.targets) == 1 and isinstance(st.targets[0], ast.Name) and isinstance(st.value, (ast.List, ast.Tuple)) \
+                    and 2 <= len(st.value.elts) <= 4 and not all(isinstance(e, (ast.Name, ast.Constant)) for e in st.value.elts) and _Small._root is not None:
+                # `accs = [np.zeros(n), np.zeros(n)]` that is later walked with enumerate / zip / for: the elements get names of their own (`accs = [_accs_0, _accs_1]`),
+                # so that a loop over the list can be written once per element
+                nm = st.targets[0].id
+                root = _Small._root
+                walked = any(isinstance(x, (ast.For, ast.comprehension)) and any(isinstance(y, ast.Name) and y.id == nm for y in ast.walk(x.iter)) for x in ast.walk(root))
+                probe = ast.Assign(targets=st.targets, value=type(st.value)(elts=[ast.Name(id="_", ctx=ast.Load()) for _e in st.value.elts], ctx=ast.Load()), lineno=st.lineno)
+                single = sum(1 for x in ast.walk(root) if isinstance(x, ast.Name) and x.id == nm and isinstance(x.ctx, (ast.Store, ast.Del))) == 1
+                untouched = not any((isinstance(x, ast.Subscript) and isinstance(x.ctx, (ast.Store, ast.Del)) and isinstance(x.value, ast.Name) and x.value.id == nm)
+                                    or (isinstance(x, ast.Call) and isinstance(x.func, ast.Attribute) and x.func.attr in MUTATORS and isinstance(x.func.value, ast.Name) and x.func.value.id == nm)
+                                    or (isinstance(x, ast.AugAssign) and isinstance(x.target, ast.Name) and x.target.id == nm) for x in ast.walk(root))
+                if walked and single and untouched and not any(isinstance(e, ast.Starred) for e in st.value.elts):
+                    new_elts = []
+                    for i_, e in enumerate(st.value.elts):
+                        if isinstance(e, (ast.Name, ast.Constant)):
+                            new_elts.append(e)
+                            continue
+                        en = "_%s_%d" % (nm.lstrip("_"), i_)
+                        out.append(ast.copy_location(ast.Assign(targets=[ast.Name(id=en, ctx=ast.Store())], value=e, lineno=st.lineno), st))
+                        new_elts.append(ast.Name(id=en, ctx=ast.Load()))
+                    out.append(ast.copy_location(ast.Assign(targets=st.targets, value=type(st.value)(elts=new_elts, ctx=ast.Load()), lineno=st.lineno), st))
+                    continue
             if isinstance(st, ast.Assign) and len(st.targets) == 1 and isinstance(st.targets[0], ast.Tuple) and all(isinstance(t, ast.Name) for t in st.targets[0].elts):
                 tg, v = st.targets[0].elts, st.value
                 # `a, b = (E(v) for v in (r1, r2))`  ->  `a = E(r1); b = E(r2)`     (a literal table with one row per target)
@@ -1777,49 +1800,118 @@ class _Small(ast.NodeTransformer):
         self.generic_visit(n)
         return _lift_attr(n)
 
+    def _local_literal(e):
+        """the list / tuple literal behind `e`: the literal itself, or - for a local bound once in the function to a literal whose elements are names / constants and
+        that is never changed structurally (append, item store, ...) - that literal"""
+        if isinstance(e, (ast.Tuple, ast.List)):
+            return e
+        root = _Small._root
+        if not isinstance(e, ast.Name) or root is None:
+            return None
+        defs = [a for a in ast.walk(root) if isinstance(a, ast.Assign) and any(isinstance(t, ast.Name) and t.id == e.id for t in a.targets)]
+        stores = sum(1 for x in ast.walk(root) if isinstance(x, ast.Name) and x.id == e.id and isinstance(x.ctx, (ast.Store, ast.Del)))
+        params = {a.arg for a in ast.walk(root) if isinstance(a, ast.arg)}
+        # (bound unconditionally: the assignment is a statement of the function body itself, and the name is not a parameter)
+        if e.id in params or len(defs) != 1 or not any(defs[0] is st_ for st_ in getattr(root, "body", [])):
+            return None
+        if len(defs) != 1 or stores != 1 or not isinstance(defs[0].value, (ast.Tuple, ast.List)) or not all(isinstance(x, (ast.Name, ast.Constant)) for x in defs[0].value.elts):
+            return None
+        for x in ast.walk(root):
+            if isinstance(x, ast.Subscript) and isinstance(x.ctx, (ast.Store, ast.Del)) and isinstance(x.value, ast.Name) and x.value.id == e.id:
+                return None
+            if isinstance(x, ast.Call) and isinstance(x.func, ast.Attribute) and x.func.attr in MUTATORS and isinstance(x.func.value, ast.Name) and x.func.value.id == e.id:
+                return None
+            if isinstance(x, ast.AugAssign) and isinstance(x.target, ast.Name) and x.target.id == e.id:
+                return None
+        return defs[0].value
+
+    _local_literal = staticmethod(_local_literal)
+
+    @staticmethod
+    def _rows_of(it):
+        """rows of a literal table given directly, through `enumerate(<literal>)` or `zip(<literal>, <literal>, ...)`; None if it is not one"""
+        lit = _Small._local_literal(it)
+        if lit is not None:
+            return list(lit.elts)
+        if isinstance(it, ast.Call) and isinstance(it.func, ast.Name) and not it.keywords and not any(isinstance(a, ast.Starred) for a in it.args):
+            if it.func.id == "enumerate" and len(it.args) == 1:
+                lit = _Small._local_literal(it.args[0])
+                if lit is not None:
+                    return [ast.Tuple(elts=[ast.Constant(value=i), e], ctx=ast.Load()) for i, e in enumerate(lit.elts)]
+            if it.func.id == "zip" and len(it.args) >= 2:
+                lits = [_Small._local_literal(a) for a in it.args]
+                if all(l is not None for l in lits) and len({len(l.elts) for l in lits}) == 1:
+                    return [ast.Tuple(elts=[l.elts[i] for l in lits], ctx=ast.Load()) for i in range(len(lits[0].elts))]
+        return None
+
     @staticmethod
     def unrolled(n):
-        """`for a, b in ((A1, B1), (A2, B2)): body` -> body[a:=A1, b:=B1]; body[a:=A2, b:=B2]  (a literal sequence of at most four rows of constants / plain names; the loop
-        variables and the names put in their place are not rebound in the body, no break / continue): a loop that only parameterises its body by side / axis is the
-        body written once per row"""
+        """`for a, b in ((A1, B1), (A2, B2)): body` -> body[a:=A1, b:=B1]; body[a:=A2, b:=B2]  (a literal sequence of at most four rows of constants / plain names / call-free
+        pure expressions - given directly, through a local list of names, `enumerate(..)` or `zip(..)` of such; the loop variables and the names put in their place are not
+        rebound in the body, no continue): a loop that only parameterises its body by side / axis is the body written once per row. A loop variable that stands for a
+        *name* in every row may be the target of `+=` (an accumulator picked from a list); a body of the form `if c: ...; break` is the if / elif chain over the rows."""
         it, tg = n.iter, n.target
-        if not (isinstance(it, (ast.Tuple, ast.List)) and 1 <= len(it.elts) <= 4 and not n.orelse):
+        elts = _Small._rows_of(it)
+        if elts is None or not (1 <= len(elts) <= 4) or n.orelse:
             return None
         names = [tg.id] if isinstance(tg, ast.Name) else ([x.id for x in tg.elts] if isinstance(tg, ast.Tuple) and all(isinstance(x, ast.Name) for x in tg.elts) else None)
         if names is None:
             return None
         rows = []
-        for e in it.elts:
+        for e in elts:
             vals = [e] if isinstance(tg, ast.Name) else (list(e.elts) if isinstance(e, ast.Tuple) and len(e.elts) == len(names) else None)
             if vals is None or not all(isinstance(v, (ast.Constant, ast.Name)) or (_is_pure(v) and not any(isinstance(x, (ast.Call, ast.Lambda)) for x in ast.walk(v))) for v in vals):
                 return None
             rows.append(vals)
-        stored = {x.id for b in n.body for x in ast.walk(b) if isinstance(x, ast.Name) and isinstance(x.ctx, (ast.Store, ast.Del))}
-        used = {x.id for r in rows for v in r for x in ast.walk(v) if isinstance(x, ast.Name)}
-        if (stored & (set(names) | used)) or any(isinstance(x, (ast.Break, ast.Continue, ast.FunctionDef, ast.Lambda)) for b in n.body for x in ast.walk(b)):
+        body = list(n.body)
+        chain = False
+        if len(body) == 1 and isinstance(body[0], ast.If) and not body[0].orelse and body[0].body and isinstance(body[0].body[-1], ast.Break) \
+                and not any(isinstance(x, (ast.Break, ast.Continue)) for b in body[0].body[:-1] for x in ast.walk(b)) and _is_pure(body[0].test, reads_ok=True):
+            chain = True   # `if c(row): S(row); break`  ->  if c(r1): S(r1) elif c(r2): S(r2) ...
+            body = [ast.copy_location(ast.If(test=body[0].test, body=list(body[0].body[:-1]) or [ast.Pass()], orelse=[]), body[0])]
+        aug = {x.target.id for b in body for x in ast.walk(b) if isinstance(x, ast.AugAssign) and isinstance(x.target, ast.Name)}
+        stored = {x.id for b in body for x in ast.walk(b) if isinstance(x, ast.Name) and isinstance(x.ctx, (ast.Store, ast.Del))}
+        plain_stored = {x.id for b in body for x in ast.walk(b) if isinstance(x, ast.Name) and isinstance(x.ctx, (ast.Store, ast.Del))
+                        and not any(isinstance(y, ast.AugAssign) and y.target is x for b2 in body for y in ast.walk(b2))}
+        acc = {nm for i, nm in enumerate(names) if nm in aug and nm not in plain_stored and all(isinstance(r[i], ast.Name) for r in rows)}   # accumulators picked from the rows
+        used = {x.id for r in rows for i, v in enumerate(r) for x in ast.walk(v) if isinstance(x, ast.Name) and names[i] not in acc}
+        if ((stored - acc) & (set(names) | used)) or any(isinstance(x, (ast.Break, ast.Continue, ast.FunctionDef, ast.Lambda)) for b in body for x in ast.walk(b)):
             return None
         # locals that live only inside the loop body belong to one copy of it
         loop_local = set()
         if _Small._root is not None:
             def count(tree, name):
                 return sum(1 for x in ast.walk(tree) if isinstance(x, ast.Name) and x.id == name)
-            loop_local = {x for x in stored if count(_Small._root, x) == count(n, x)}
-        out = []
+            loop_local = {x for x in stored - acc if count(_Small._root, x) == count(n, x)}
+        copies = []
         for k, r in enumerate(rows):
             env = dict(zip(names, r))
             # (locals of written-out helpers belong to one copy of the body)
-            ren = {x: "%s_u%d" % (x, k + 1) for x in stored if "__" in x or x in loop_local} if k else {}
-            for b in n.body:
-                c = _SubstAll(env)
+            ren = {x: "%s_u%d" % (x, k + 1) for x in stored - acc if "__" in x or x in loop_local} if k else {}
+            ren.update({nm: env[nm].id for nm in acc})   # (`acc += v` on the row's accumulator)
+            out = []
+            for b in body:
+                c = _SubstAll({k_: v_ for k_, v_ in env.items() if k_ not in acc})
                 c._top = n
                 b2 = c.visit(copy.deepcopy(b))
                 if ren:
                     b2 = _Rename(ren).visit(b2)
-                out.append(_FoldConst().visit(b2))
-        flat = []
-        for st in out:
-            flat.extend(st if isinstance(st, list) else [st])
-        return flat
+                b2 = _FoldConst().visit(b2)
+                out.extend(b2 if isinstance(b2, list) else [b2])
+            copies.append(out)
+        if chain:
+            # each copy is one `if`: nest them as else-branches
+            tail = []
+            for out in reversed(copies):
+                if len(out) == 1 and isinstance(out[0], ast.If):
+                    out[0].orelse = tail
+                    tail = [out[0]]
+                elif len(out) == 1 and isinstance(out[0], ast.Pass):
+                    continue          # (the test folded to False)
+                else:
+                    tail = out        # (the test folded to True: this row always matches, later rows are dead)
+            return tail or [ast.copy_location(ast.Pass(), n)]
+        return [st for out in copies for st in out]
 
     def visit_Call(self, n):
         self.generic_visit(n)
@@ -1864,13 +1956,18 @@ class _Small(ast.NodeTransformer):
         if len(comp.generators) != 1:
             return None
         g = comp.generators[0]
-        if g.ifs or g.is_async or not isinstance(g.iter, (ast.Tuple, ast.List)) or not (1 <= len(g.iter.elts) <= 4) or not isinstance(g.target, ast.Name):
+        rows = _Small._rows_of(g.iter)
+        if g.ifs or g.is_async or rows is None or not (1 <= len(rows) <= 4):
             return None
-        if not all(isinstance(e, (ast.Constant, ast.Name)) or (_is_pure(e, reads_ok=True) and not any(isinstance(x, (ast.Call, ast.Lambda, ast.Starred)) for x in ast.walk(e))) for e in g.iter.elts):
+        names = [g.target.id] if isinstance(g.target, ast.Name) else ([x.id for x in g.target.elts] if isinstance(g.target, ast.Tuple) and all(isinstance(x, ast.Name) for x in g.target.elts) else None)
+        if names is None:
             return None
         out = []
-        for e in g.iter.elts:
-            t_ = _SubstAll({g.target.id: e})
+        for e in rows:
+            vals = [e] if isinstance(g.target, ast.Name) else (list(e.elts) if isinstance(e, ast.Tuple) and len(e.elts) == len(names) else None)
+            if vals is None or not all(isinstance(v, (ast.Constant, ast.Name)) or (_is_pure(v, reads_ok=True) and not any(isinstance(x, (ast.Call, ast.Lambda, ast.Starred)) for x in ast.walk(v))) for v in vals):
+                return None
+            t_ = _SubstAll(dict(zip(names, vals)))
             t_._top = comp
             out.append(t_.visit(copy.deepcopy(comp.elt)))
         return out
